@@ -2,6 +2,7 @@ package sim
 
 import (
 	"fmt"
+	"runtime"
 	"sort"
 	"strings"
 	"testing"
@@ -73,12 +74,18 @@ func RunOne(t *testing.T, spec RunSpec) (res RunResult) {
 			defer func() {
 				if p := recover(); p != nil {
 					msg := fmt.Sprint(p)
-					if strings.HasPrefix(msg, "harness:") || s.PanicProp == "" {
+					if strings.HasPrefix(msg, "harness:") || s.PanicProp == "" || !panicInLibrary() {
 						res.Harness = "panic on driver goroutine: " + msg + " at " + shortStack()
 					} else {
 						// the driver was executing library code directly (solo mode):
 						// this is a library panic
 						res.Viol = &Violation{Prop: s.PanicProp, Oracle: "survive", Detail: "panic: " + msg + " at " + shortStack(), Sig: s.PanicProp + "/survive/panic:" + normPanic(msg)}
+						if s.Target != "" && s.PanicProp != s.Target {
+							// not a violation of the property this run decides, but the run
+							// cannot be decided either
+							res.Harness = "library panicked during the run (undecidable here; see " + s.PanicProp + "): " + res.Viol.Sig + ": " + res.Viol.Detail
+							res.Viol = nil
+						}
 					}
 				}
 			}()
@@ -107,6 +114,32 @@ func RunOne(t *testing.T, spec RunSpec) (res RunResult) {
 		}
 	})
 	return
+}
+
+// panicInLibrary reports whether the function that panicked (the first frame
+// below runtime's panic machinery) belongs to the library under test rather
+// than to the harness. Must be called from a deferred function while panicking.
+func panicInLibrary() bool {
+	buf := make([]byte, 1<<16)
+	n := runtime.Stack(buf, false)
+	lines := strings.Split(string(buf[:n]), "\n")
+	seenPanic := false
+	for _, l := range lines {
+		if strings.HasPrefix(l, "\t") {
+			continue
+		}
+		if strings.HasPrefix(l, "panic(") || strings.HasPrefix(l, "runtime.") {
+			if strings.HasPrefix(l, "panic(") {
+				seenPanic = true
+			}
+			continue
+		}
+		if !seenPanic {
+			continue
+		}
+		return strings.Contains(l, "xtaci/kcp-go") || strings.Contains(l, "klauspost/reedsolomon")
+	}
+	return false
 }
 
 // normPanic reduces a panic message to its class (numbers removed).
